@@ -1,5 +1,6 @@
 """C05 - ModifyAckDeadline replaces the deadline; zero means nack."""
 import z3
+from props.actor_steps import *
 from framework import Obligation, Claim, Cover
 from values import *
 from interp import run_to_end
@@ -54,4 +55,6 @@ class C05a(Obligation):
 
 
 def obligations(ctx, cfg):
-    return [C05a(ctx)]
+    q = cfg['tier'] == 'quick'
+    n, k = (3, 2) if q else (4, 3)
+    return [C05a(ctx), TrackerModify(ctx, n, k), StepModify(ctx, n, 2, k, 'modify', 'C05.d')]
